@@ -4,7 +4,7 @@
    Model/EchoWriter.v (LuaEchoWriter).  Reference decoder: Spec/LuaLex.v.  holds_C06: Instances/HoldsC06.v,
    the very predicate the extracted monitor evaluates on (source, text written by the implementation). *)
 From PV Require Import Base.Prelude Generated.T_lexer Model.Lexer Model.EchoWriter Spec.LuaLex
-  Instances.HoldsC06 Proofs.LexerProofs Proofs.LexerInv Proofs.LexerStr Proofs.LexerEnc Proofs.LexerChunk Proofs.EchoProofs Proofs.LexerRelex Proofs.LexerAppendLf Proofs.EchoStable.
+  Instances.HoldsC06 Proofs.LexerProofs Proofs.LexerInv Proofs.LexerStr Proofs.LexerEnc Proofs.LexerChunk Proofs.EchoProofs Proofs.LexerRelex Proofs.LexerAppendLf Proofs.EchoStable Proofs.EchoRelexSpec.
 
 (* THE property for every byte string given as one chunk: if the source is in the dialect it is lexed, and the
    echoed text, walked along the reference tokens of the source, repeats the source byte for byte outside
@@ -125,3 +125,49 @@ Example C06_holds_examples :
       [bs_ "x=""\0001"""; bs_ "x=""\x41\65"""; bs_ "s='a\" ++ [13; 10] ++ bs_ "b' --c" ++ [13; 10];
        bs_ "t=[==[" ++ [10] ++ bs_ "]]]==] y=0x.8"] = true.
 Proof. vm_compute. reflexivity. Qed.
+
+(* the re-lex clause against the REFERENCE grammar, with the monitor's own predicate holds_C06_relex
+   (Instances/HoldsC06.v) and under exactly its domain (any byte string; no claim outside the dialect): the text
+   written by the model for a source of the dialect is itself in the dialect (spec_lex defined on it) and its
+   reference tokens have, one by one, the same class, the same text outside quoted strings, and inside quoted
+   strings the same quote and the same denoted bytes *)
+Theorem C06_relex_reference : forall src, Forall byte src ->
+  match echo_source [src] with
+  | Ok lines => holds_C06_relex src (concat lines) = true
+  | Err _ => holds_C06_error src = true
+  end.
+Proof. exact model_holds_C06_relex. Qed.
+Print Assumptions C06_relex_reference.
+
+(* the same when the text arrives split after line feeds (the .p8 path) *)
+Theorem C06_relex_reference_chunks : forall ls, Forall ends_lf (removelast ls) -> Forall byte (concat ls) ->
+  match echo_source ls with
+  | Ok lines => holds_C06_relex (concat ls) (concat lines) = true
+  | Err _ => holds_C06_error (concat ls) = true
+  end.
+Proof. exact model_holds_C06_relex_chunks. Qed.
+Print Assumptions C06_relex_reference_chunks.
+
+(* the implication between the two monitor predicates, for ANY pair (source, written text) - also the
+   implementation's: a faithful echo without a lone carriage return re-lexes to the same views *)
+Theorem C06_relex_of_holds : forall src out,
+  holds_C06 src out = true -> crlf_only out = true -> holds_C06_relex src out = true.
+Proof. exact holds_C06_relex_of_holds. Qed.
+Print Assumptions C06_relex_of_holds.
+
+(* spelled out: the written text of a source of the dialect is in the dialect, with the same views *)
+Theorem C06_echo_in_dialect : forall src ss, Forall byte src -> spec_lex src = Some ss ->
+  exists lines ss', echo_source [src] = Ok lines /\ spec_lex (concat lines) = Some ss' /\ all2 same_view ss ss' = true.
+Proof. exact echo_in_dialect. Qed.
+Print Assumptions C06_echo_in_dialect.
+
+(* non-vacuity: sources of the dialect whose strings are respelled by the writer; the predicate is not
+   trivially true (a text with one byte changed fails it) *)
+Example C06_relex_examples :
+  forallb (fun src => match spec_lex src, echo_source [src] with
+                      | Some _, Ok l => holds_C06_relex src (concat l) && negb (zlist_eqb src (concat l))
+                      | _, _ => false end)
+      [bs_ "x=""\x41\65"" -- c" ++ [13; 10] ++ bs_ "y=0x.8"; bs_ "s='a\" ++ [13; 10] ++ bs_ "b' t=[==[" ++ [10] ++ bs_ "]]]==]"] = true
+  /\ holds_C06_relex (bs_ "x=""\65""") (bs_ "x=""B""") = false
+  /\ holds_C06_relex (bs_ "x=1") (bs_ "x=""") = false.
+Proof. vm_compute. repeat split; reflexivity. Qed.
